@@ -63,7 +63,7 @@ class Builder:
         if k == 'shared':
             n = t[1]
             if n not in self.shared:
-                self.shared[n] = self.build(SHARED[n], ['S', n])
+                self.shared[n] = self.build(SHARED[n], [0, n])
             return self.shared[n]
         if k == 'obj':
             kids = [self.build(c, path + [i + 1]) for i, c in enumerate(t[2])]
